@@ -197,6 +197,11 @@ theorem winv_apply {fl : Flags} {done0 : Nat → Bool} {w : W} (h : WInv done0 w
     split
     · exact ⟨init_invB _ _, diskInv_crash (diskInv_spawn h.disk _ _)⟩
     · exact h
+  | crashInPrepare j st =>
+    simp only [W.apply]
+    split
+    · refine ⟨init_invB _ _, diskInv_crash (diskInv_setDir h.disk _ _ rfl rfl rfl rfl (Or.inl rfl) (Or.inl rfl))⟩
+    · exact h
 
 theorem wreach_inv {fl : Flags} {totals : List Nat} {done0 : Nat → Bool} {w : W} (h : WReach fl totals done0 w) : WInv done0 w := by
   obtain ⟨evs, rfl⟩ := h
